@@ -9,6 +9,7 @@ Oracle: source / target / intermediate tables and all end-to-end (root, target c
 from __future__ import annotations
 
 import dataclasses
+import itertools
 import os
 
 from vlib import runner, sqlgen
@@ -159,6 +160,61 @@ def toggle_table_aliases(stmt, picks):
     return s
 
 
+def rename_per_scope(stmt, include_derived=True):
+    """inside every SELECT the aliases of its own FROM items are renamed to n1, n2, .. in order, so the SAME names are reused in sibling and nested
+    scopes (legal SQL: an alias is local to its query block; the generator emits no correlated references).  Qualified references of that
+    select (not of nested queries) are rewritten."""
+    def rewrite_expr(e, ren):
+        m = {k.lower(): v for k, v in ren}
+
+        def f(x):
+            if isinstance(x, ir.Col) and x.qual and x.qual.lower() in m:
+                return ir.Col(m[x.qual.lower()], x.name)
+            if isinstance(x, ir.Star) and x.qual and x.qual.lower() in m:
+                return ir.Star(m[x.qual.lower()])
+            return x
+
+        return _map_no_query(e, f)
+
+    def sel(q):
+        if isinstance(q, ir.With):
+            return ir.With(tuple((n, sel(c)) for n, c in q.ctes), sel(q.body), q.recursive)
+        if isinstance(q, ir.SetOp):
+            return ir.SetOp(q.ops, tuple(sel(b) for b in q.branches))
+        ren = []
+        counter = [0]
+
+        def item(fi):
+            if isinstance(fi, ir.Derived):
+                inner = sel(fi.q)
+                if include_derived:
+                    counter[0] += 1
+                    ren.append((fi.alias, f"n{counter[0]}"))
+                    return ir.Derived(inner, f"n{counter[0]}", fi.as_kw)
+                return ir.Derived(inner, fi.alias, fi.as_kw)
+            if isinstance(fi, (ir.T, ir.CteRef)) and fi.alias:
+                counter[0] += 1
+                ren.append((fi.alias, f"n{counter[0]}"))
+                return dataclasses.replace(fi, alias=f"n{counter[0]}")
+            return fi
+
+        groups = [ir.FromGroup(item(g.first), tuple(ir.Join(j.kind, item(j.item), j.cond) for j in g.joins)) for g in q.frm]
+        groups = [ir.FromGroup(g.first, tuple(ir.Join(j.kind, j.item, (j.cond[0], rewrite_expr(j.cond[1], ren)) if j.cond and j.cond[0] == "on" else j.cond)
+                                              for j in g.joins)) for g in groups]
+        items = tuple(ir.Item(_map_queries(rewrite_expr(i.e, ren), sel), i.alias, i.as_kw) for i in q.items)
+        where = _map_queries(rewrite_expr(q.where, ren), sel) if q.where is not None else None
+        having = _map_queries(rewrite_expr(q.having, ren), sel) if q.having is not None else None
+        gb = tuple(rewrite_expr(e, ren) for e in q.group_by)
+        return ir.Select(items, tuple(groups), where, q.distinct, gb, having)
+
+    s = stmt
+    if isinstance(s, ir.CteInsert):
+        return ir.CteInsert(tuple((n, sel(c)) for n, c in s.ctes), dataclasses.replace(s.ins, q=sel(s.ins.q)))
+    if getattr(s, "q", None) is not None:
+        return dataclasses.replace(s, q=sel(s.q))
+    return s
+
+
 def _map_no_query(node, f):
     """map over an expression / predicate tree without descending into nested queries"""
     if node is None:
@@ -185,6 +241,81 @@ def _map_queries(node, fq):
         kw = {fl.name: _map_queries(getattr(node, fl.name), fq) for fl in dataclasses.fields(node)}
         return type(node)(**kw)
     return node
+
+
+def alias_ambiguities(stmt):
+    """K-alias-reuse trigger, read off the IR: sqllineage keeps ONE alias edge set per statement, so in a scope S1 that contains base table X and a
+    relation Y aliased q, the qualifier q is ambiguous as soon as X carries the alias q in ANOTHER scope S2.  Returns the set of relations between
+    S1 and S2: 'from_child' (S2 is reached from S1 through derived tables in FROM only - the unchanged tree resolves these correctly, the outer
+    alias edge is added last) or 'other' (WHERE / select-list subquery, sibling set-operation branch, CTE body ...)."""
+    scopes = []  # (scope id, path of (parent id, edge kind), [(table key | None, alias)])
+
+    def sel(q, path):
+        if isinstance(q, ir.With):
+            for _, c in q.ctes:
+                sel(c, path + [("cte", None)])
+            sel(q.body, path)
+            return
+        if isinstance(q, ir.SetOp):
+            for i, b in enumerate(q.branches):
+                sel(b, path + [("branch", i)])
+            return
+        sid = len(scopes)
+        rels = []
+        scopes.append((sid, list(path), rels))
+
+        def item(fi):
+            if isinstance(fi, ir.T):
+                rels.append((ir.tkey(fi), (fi.alias or "").lower() or None))
+            elif isinstance(fi, ir.CteRef):
+                rels.append((None, (fi.alias or fi.name).lower()))
+            elif isinstance(fi, ir.Derived):
+                rels.append((None, fi.alias.lower()))
+                sel(fi.q, path + [("from", sid)])
+            elif isinstance(fi, ir.Nested):
+                item(fi.group.first)
+                for j in fi.group.joins:
+                    item(j.item)
+
+        for g in q.frm:
+            item(g.first)
+            for j in g.joins:
+                item(j.item)
+
+        def sub(node):
+            _map_queries(node, lambda qq: (sel(qq, path + [("expr", sid)]), qq)[1])
+
+        for it in q.items:
+            sub(it.e)
+        sub(q.where)
+        sub(q.having)
+
+    s = stmt
+    if isinstance(s, ir.CteInsert):
+        for _, c in s.ctes:
+            sel(c, [("cte", None)])
+        s = s.ins
+    if getattr(s, "q", None) is not None:
+        sel(s.q, [])
+    kinds = set()
+    for sid1, path1, rels1 in scopes:
+        for x, _ in rels1:
+            if x is None:
+                continue
+            for y, q in rels1:
+                if q is None or (y == x):
+                    continue
+                for sid2, path2, rels2 in scopes:
+                    if sid2 == sid1:
+                        continue
+                    if any(x2 == x and q2 == q for x2, q2 in rels2):
+                        # is S2 below S1 through FROM-derived tables only?
+                        tail = path2[len(path1):] if path2[:len(path1)] == path1 else None
+                        if tail is not None and tail and all(k == "from" for k, _ in tail) and tail[0][1] == sid1 and y is not None:
+                            kinds.add("from_child")  # Y is a base table: resolved correctly on the unchanged tree
+                        else:
+                            kinds.add("other")
+    return kinds
 
 
 def view(sql, dialect):
@@ -214,6 +345,13 @@ def compare(a, b, mapping=None):
 
 
 def classify(case, detail):
+    if case.get("dialect") == "clickhouse" and detail.get("what") == "S differ" and " WHERE " in case.get("original", "").upper() and (
+            set(detail["original"]) < set(detail["rewritten"]) or set(detail["rewritten"]) < set(detail["original"])):
+        # clickhouse loses the tables of WHERE subqueries depending on how the compared column is spelled (K-clickhouse-where-subquery@C01)
+        return "K-clickhouse-where-subquery@C08"
+    if str(case.get("transformation", "")).startswith("reuse_per_scope") and "other" in (case.get("alias_ambiguities") or []) and detail.get("what") in (
+            "column pairs differ", "S differ"):
+        return "K-alias-reuse@C08"
     if case.get("pool") == "used_tables" and detail.get("what") in ("column pairs differ", "S differ"):
         return "K-alias-vs-tablename@C08"
     return None
@@ -233,7 +371,7 @@ def _worker(payload):
         stmt, tsel, psel, perm, picks, dsel = case
         names = local_names(stmt)
         dialect = "ansi" if dsel < 70 else dl[dsel % len(dl)]
-        kind = ["rename", "rename", "rename", "toggle_aliases", "toggle_as"][tsel % 5]
+        kind = ["rename", "rename", "rename", "toggle_aliases", "toggle_as", "reuse_per_scope", "reuse_per_scope_tables_only"][tsel % 7]
         mapping = None
         pool_name = None
         if kind == "rename":
@@ -258,6 +396,8 @@ def _worker(payload):
             stmt2 = rename(stmt, mapping)
         elif kind == "toggle_aliases":
             stmt2 = toggle_table_aliases(stmt, picks)
+        elif kind.startswith("reuse_per_scope"):
+            stmt2 = rename_per_scope(stmt, include_derived=kind == "reuse_per_scope")
         else:
             stmt2 = toggle_as(stmt)
         sql, sql2 = ir.r_stmt(stmt), ir.r_stmt(stmt2)
@@ -272,6 +412,8 @@ def _worker(payload):
         nrefs = sql.count(".")  # qualified references present
         nt = (len(names) >= 2 and nrefs >= 1) if kind == "rename" else nrefs >= 1
         c = {"original": sql, "rewritten": sql2, "dialect": dialect, "transformation": kind, "pool": pool_name, "mapping": mapping}
+        if kind.startswith("reuse_per_scope"):
+            c["alias_ambiguities"] = sorted(alias_ambiguities(stmt2))
         res_.case((sql, sql2, dialect), nt, labels=["transformation:" + kind, "dialect:" + dialect] + (["pool:" + pool_name] if pool_name else []),
                   sample=c if len(sql) < 260 else None)
         d = compare(view(sql, dialect), view(sql2, dialect), mapping)
@@ -292,6 +434,77 @@ def _worker(payload):
     return res
 
 
+def crafted_statements():
+    """query blocks that can legally share alias names: sibling derived tables one of which nests another derived table, subqueries in WHERE, set-operation
+    branches, the same base table under different aliases in different blocks - all with pass-through column names"""
+    I, C, T, D, S, G, J = ir.Item, ir.Col, ir.T, ir.Derived, ir.Select, ir.FromGroup, ir.Join
+    on = lambda a, b, c="x": ("on", ir.Cmp(C(a, c), "=", C(b, c)))  # noqa: E731
+    base = lambda t, c="x": S((I(C(None, c)),), (G(T(None, t)),))  # noqa: E731
+    tgt = T(None, "tgt")
+    out = []
+    out.append(ir.Insert(tgt, None, S((I(C("a", "x")), I(C("b", "x"), "y")), (G(D(base("t1"), "a", False), (J("JOIN", D(S((I(C("c", "x")),), (G(D(base("t2"), "c", False)),)), "b", False), on("a", "b")),)),))))
+    out.append(ir.Insert(tgt, None, S((I(C("sq", "x")),), (G(D(base("t1"), "sq", True)),), ir.InSub(C("sq", "x"), S((I(C("c", "x")),), (G(D(base("t2"), "c", True)),))))))
+    out.append(ir.Ctas(tgt, S((I(C("d", "k")), I(C("e", "k"), "k2")), (G(D(base("t1", "k"), "d", True), (J("LEFT JOIN", D(S((I(C("f", "k")),), (G(D(ir.SetOp(("UNION ALL",), (base("t2", "k"), base("t3", "k"))), "f", True)),)), "e", True), on("d", "e", "k")),)),)), "CREATE TABLE", False))
+    out.append(ir.Insert(tgt, None, S((I(C("a", "x")), I(C("b", "y"))), (G(T(None, "t1", "a", False), (J("JOIN", T(None, "t2", "b", False), on("a", "b", "k")), J("JOIN", D(S((I(C("c", "y")),), (G(T(None, "t2", "c", False)),)), "sq", False), on("sq", "b", "y")))),))))
+    out.append(ir.Insert(tgt, None, ir.SetOp(("UNION ALL", "UNION ALL"), (S((I(C("a", "x")),), (G(D(base("t1"), "a", True)),)), S((I(C("b", "x")),), (G(D(base("t2"), "b", True)),)),
+                                                                        S((I(C("c", "x")),), (G(T(None, "t3", "c", True), (J("JOIN", T(None, "t1", "d", True), on("c", "d", "k")),)),))))))
+    out.append(ir.CreateView(tgt, None, S((I(C("a", "x")), I(C("b", "x"), "y"), I(C("c", "x"), "z")), (G(D(base("t1"), "a", True)), G(D(base("t2"), "b", True)), G(D(S((I(C("d", "x")),), (G(D(S((I(C("e", "x")),), (G(D(base("t3"), "e", True)),)), "d", True)),)), "c", True)))), "CREATE VIEW", False))
+    out.append(ir.Insert(tgt, None, S((I(C("a", "x")), I(C("b", "y"))), (G(T(None, "t1", "a", True), (J("JOIN", T("s1", "t2", "b", True), on("a", "b", "k")),)),), ir.Exists(S((I(C("c", "k")),), (G(T(None, "t1", "c", True), (J("JOIN", T(None, "t3", "d", True), on("c", "d", "k")),)),))))))
+    return out
+
+
+def _skeleton_worker(payload):
+    """deterministic stream: the C02 skeleton product (item kind x scope x nesting x set-operation arity) under every transformation; nesting 2 gives
+    derived tables inside derived tables that per-scope reuse names identically, with pass-through column names"""
+    shard, nshards, ctx = payload
+    res = runner.Res()
+    crafted = [(st_, ["crafted", "nest=2"]) for st_ in crafted_statements()]
+    for idx, (stmt, feats) in enumerate(itertools.chain(crafted, C02.skeletons())):
+        if idx % nshards != shard:
+            continue
+        if "crafted" in feats:
+            pass
+        elif "nest=0" in feats and "scope:derived" not in feats and "scope:derived_join_table" not in feats and "scope:cte" not in feats:
+            continue
+        if "crafted" not in feats and ctx.quick and (idx // nshards + ctx.seed) % 4:
+            continue
+        if ctx.out_of_time():
+            res.budget_exhausted = True
+            break
+        names = local_names(stmt)
+        variants = [("reuse_per_scope", rename_per_scope(stmt, True), None), ("reuse_per_scope_tables_only", rename_per_scope(stmt, False), None),
+                    ("toggle_as", toggle_as(stmt), None)]
+        if names and len(names) <= len(MIXED):
+            mp = {n: MIXED[i] for i, n in enumerate(names)}
+            variants.append(("rename", rename(stmt, mp), mp))
+        sql = ir.r_stmt(stmt)
+        if not C01.accepted(stmt, sql, "ansi"):
+            res.discard("parser_divergent_or_rejected")
+            continue
+        base = None
+        for kind, stmt2, mapping in variants:
+            sql2 = ir.r_stmt(stmt2)
+            if sql2 == sql or not C01.accepted(stmt2, sql2, "ansi"):
+                res.discard("no_change_or_rejected")
+                continue
+            base = base or view(sql, "ansi")
+            c = {"original": sql, "rewritten": sql2, "dialect": "ansi", "transformation": kind, "pool": "mixed" if mapping else None, "mapping": mapping}
+            if kind.startswith("reuse_per_scope"):
+                c["alias_ambiguities"] = sorted(alias_ambiguities(stmt2))
+            res.case((sql, sql2, "ansi"), True, labels=["skeleton", "transformation:" + kind] + [f for f in feats if f.startswith("nest=")], sample=c if len(sql) < 300 else None)
+            d = compare(base, view(sql2, "ansi"), mapping)
+            if d is None:
+                continue
+            fid = classify(c, d)
+            if fid and fid in ctx.active:
+                res.known(fid, c)
+            elif os.environ.get("VERIF_COLLECT"):
+                res.known("UNLISTED skeleton | " + kind + " | " + d["what"] + " | " + ",".join(feats)[:90], c)
+            elif len(res.violations) < 4:
+                res.violation(kind, c, d)
+    return res
+
+
 def replay(case):
     d = compare(view(case["original"], case["dialect"]), view(case["rewritten"], case["dialect"]), case.get("mapping"))
     return None if d is None else {"kind": "replay", "case": case, "detail": d}
@@ -299,4 +512,7 @@ def replay(case):
 
 def run(ctx):
     n = ctx.n(1600, 30000)
-    return runner.merge_all(runner.pmap(_worker, [(i, n // runner.NCPU, ctx) for i in range(runner.NCPU)]))
+    res = runner.merge_all(runner.pmap(_worker, [(i, n // runner.NCPU, ctx) for i in range(runner.NCPU)]))
+    nshards = runner.NCPU * 2
+    res.merge(runner.merge_all(runner.pmap(_skeleton_worker, [(i, nshards, ctx) for i in range(nshards)])))
+    return res
